@@ -132,6 +132,18 @@ CHECKS["C03"] = dict(cat="translation_validation", ref="4 C03 / 11.18", engine="
    note="Within the bound: single operations; code points up to 0x2FFFF (Z3's character sort); IntToStr up to 4 digits symbolically (+ boundary values concretely). "
         "StrIsDigit has no solver translation and is outside the claim. A regular expression built from symbolic characters is explored on one solver-chosen "
         "representative and reported inconclusive (the repaired kernels use none).")
+CHECKS["C26"] = dict(cat="exploration", ref="4 C26 / 11.19", engine="z3-witness",
+   text="Solver-generated witnesses per value class: for bit-vectors of widths 1..128 (quick; ..1024 thorough), doubles and singles (NaN, signed zeros, "
+        "infinities, smallest / largest subnormal and normal, odd fractions, extreme exponents, negative) and strings (NUL, backslash, text that looks like an "
+        "escape sequence, quotes, non-ASCII, astral characters, 13 pinned literals + 4 classes) the REAL Solver and SolverComposite are asked for up to 8 "
+        "values (eval / batch_eval, fresh and from the model cache) and for signed / unsigned min and max under a constraint set that pins the expression "
+        "into the class - Z3 chooses the values.  Every returned Python value is re-asserted at bit level in an independent Z3 query built by the harness "
+        "(constraints /\\ expr == literal(value) must be satisfiable; floats by IEEE bit pattern, NaN as a class; strings as code-point sequences); min / max "
+        "are compared with Z3's optimum and must lie in the range of the requested reading.  Also compound expressions (x + 3, wide Concat, fpNeg, fpToIEEEBV, "
+        "fpAdd, StrConcat, StrLen) and batch_eval of a mixed-sort list.",
+   technique="solver-generated inputs through the real extraction code; an independent SMT query decides every returned value",
+   note="The extraction crosses libz3 (numerals as C integers / decimal strings / significand and exponent strings): no engine here executes that boundary "
+        "symbolically, so the claim is exploration over solver-chosen witnesses of the listed classes, not a decision for all values.")
 CHECKS["C25"] = dict(cat="translation_validation", ref="4 C25 / 11.9", engine="pysym",
    text="claripy.constraint_to_si / Balancer run on constraints whose constants are symbolic (the VSA min/max/eval/is_true calls and the interval "
         "arithmetic inside run on the same shadows). Per explored path Z3 decides, for all constants and every assignment that satisfies c (claripy's "
@@ -246,7 +258,9 @@ def main():
         "engines": [
             {"name": "po-smt", "path": "/verif/harness/p_c19.py", "serves_properties": ["C19"],
              "kind_free_text": "Python-AST to SMT partial-order encoding (event clocks + reads-from), decided by Z3"},
-            {"name": "pysym", "path": "/verif/pysym", "serves_properties": sorted(k for k in CHECKS if k != "C19"),
+            {"name": "z3-witness", "path": "/verif/harness/p_c26.py", "serves_properties": ["C26"],
+             "kind_free_text": "Z3 generates the witnesses through the real frontends; every extracted value is decided by an independent Z3 query"},
+            {"name": "pysym", "path": "/verif/pysym", "serves_properties": sorted(k for k in CHECKS if k not in ("C19", "C26")),
              "kind_free_text": "own symbolic-execution engine: int/float subclasses carrying Z3 terms run through the real claripy code, fork-by-replay / fork-by-process, Z3 decides every branch and every assertion"},
         ],
         "checks": checks,
